@@ -3,7 +3,9 @@ package props
 import (
 	"encoding/json"
 	"errors"
+	"fmt"
 	"os"
+	"path/filepath"
 	"testing"
 
 	"github.com/maypok86/otter/v2/verifharness/vh"
@@ -73,6 +75,17 @@ func propMain[C any](t *testing.T, spec propSpec[C]) {
 		}
 		ev.Write(failed)
 	}()
+	// regression tier: saved minimal cases of earlier findings, run without the generator
+	for _, rc := range loadRegressCases[C](spec.Prop, spec.Test) {
+		o := spec.Run(rc)
+		ev.Class("regress-case", 1)
+		ev.Case(vh.Sig(fmt.Sprint(rc)), true, nil, func() any { return rc })
+		if o.Err != nil {
+			cc := rc
+			lastFail, lastMsg = &cc, o.Err.Error()
+			t.Fatalf("%s (regression case): %v", spec.Prop, o.Err)
+		}
+	}
 	rapid.Check(t, func(rt *rapid.T) {
 		c := spec.Gen(rt)
 		o := spec.Run(c)
@@ -95,4 +108,31 @@ func propMain[C any](t *testing.T, spec propSpec[C]) {
 			rt.Fatalf("%s: %v", spec.Prop, o.Err)
 		}
 	})
+}
+
+func loadRegressCases[C any](prop, test string) []C {
+	dir := os.Getenv("VERIF_REGRESS")
+	if dir == "" {
+		dir = "/verif/regress"
+	}
+	ents, err := os.ReadDir(filepath.Join(dir, prop))
+	if err != nil {
+		return nil
+	}
+	var out []C
+	for _, e := range ents {
+		b, err := os.ReadFile(filepath.Join(dir, prop, e.Name()))
+		if err != nil {
+			continue
+		}
+		var f struct {
+			Test string `json:"test"`
+			Case C      `json:"case"`
+		}
+		if json.Unmarshal(b, &f) != nil || f.Test != test {
+			continue
+		}
+		out = append(out, f.Case)
+	}
+	return out
 }
